@@ -121,7 +121,7 @@ pub fn run(args: &Args) -> Report {
     "C19" => {
       let mut r = Report::new();
       if replay.as_ref().map_or(true, |(c, _)| c != "crash-points") {
-        r = wf::run_classes("C19", t, s, &[CP { name: "td-inj-any", n: 3000 * scale }, CP { name: "td-inj-up", n: 2000 * scale }, CP { name: "mixed-inj-any", n: 1000 * scale }], replay.clone());
+        r = wf::run_classes("C19", t, s, &[CP { name: "td-inj-anyp", n: 3000 * scale }, CP { name: "td-inj-up", n: 2000 * scale }, CP { name: "mixed-inj-anyp", n: 1000 * scale }], replay.clone());
       }
       if replay.as_ref().map_or(true, |(c, _)| c == "crash-points") {
         r.merge(wf::run_crash_points("C19", t, s, 300 * scale, replay.as_ref().map(|x| x.1)));
